@@ -1,11 +1,15 @@
 import slayer
-from props.scommon import scen, preempt_scenario
+from props.scommon import scen, preempt_scenario, naive_late_root_fails_scenario
 """C17 - naive scheduler: whole-pool FIFO without retries or preemption (also the starter scheduler of `eudoxia init`)"""
 
 
 def run(ctx):
     n = 120 if ctx.quick() else 1200
-    slayer.run_scenarios_s(ctx, "C17", scen(ctx, ["naive", "template", "naive"], n))
+    def scenarios():
+        yield from scen(ctx, ["naive", "template", "naive"], n)
+        for i in range(max(30, n // 6)):
+            yield naive_late_root_fails_scenario(ctx.seed * 7919 + i, ["naive", "template"][i % 2])
+    slayer.run_scenarios_s(ctx, "C17", scenarios())
 
 
 def replay(ctx, rep):
